@@ -708,6 +708,19 @@ def bounded_loop(n):
     (b) `while <i> < <bound>` (also <=, !=) where the body's own top-level statements increase `i` by a positive literal,
         nothing else assigns `i`, and no local of the bound is assigned in the body."""
     body = n.get("body") or {}
+    stmts = body.get("stmts") or []
+    if stmts and stmts[0].get("k") == "Let" and stmts[0].get("els") is not None and stmts[0].get("init"):
+        # `loop { let Some(x) = it.next() else { break }; .. }`
+        st0 = stmts[0]
+        init = st0["init"]
+        somepat = (st0["pat"].get("ctor_of") or st0["pat"].get("def") or "")
+        exits = [m["k"] for m in common.hir_walk(st0["els"]) if m["k"] in ("Break", "Ret", "Continue")]
+        if init["k"] == "MethodCall" and init["name"] in ("next", "next_back") and somepat.endswith("Some") and exits and all(x in ("Break", "Ret") for x in exits):
+            r = init["recv"]
+            while r["k"] == "AddrOf":
+                r = r["e"]
+            if r["k"] == "Path" and r.get("res") == "local":
+                return "loop { let Some(..) = iterator.next() else { break } .. }"
     inner = body.get("expr")
     if inner is None and len(body.get("stmts", [])) == 1:
         inner = body["stmts"][0].get("e")
